@@ -59,6 +59,11 @@ def _tree_edges(
   if efcid >= wp.min(njmax_in, nefc_in[worldid]):
     return
 
+  # rows dropped on njmax_nnz overflow have no Jacobian and an unwritten type/id: they touch no tree
+  if is_sparse:
+    if efc_J_rownnz_in[worldid, efcid] == 0:
+      return
+
   efc_type = efc_type_in[worldid, efcid]
   efc_id = efc_id_in[worldid, efcid]
 
@@ -528,6 +533,12 @@ def _compute_efc_tree(
 
   if efcid >= wp.min(njmax_in, nefc_in[worldid]):
     return
+
+  # rows dropped on njmax_nnz overflow have no Jacobian and an unwritten type/id: no tree
+  if is_sparse:
+    if efc_J_rownnz_in[worldid, efcid] == 0:
+      efc_tree_out[worldid, efcid] = -1
+      return
 
   efc_type = efc_type_in[worldid, efcid]
   efc_id = efc_id_in[worldid, efcid]
